@@ -28,7 +28,7 @@ CHECKS = {
          "Exploration: images built token by token from the pinned schema (arbitrary pad placement, interior NUL, -0/sNaN, garbage or correct computed fields) and bit-flipped valid images; reference images at the prefix maxima; every accepted image is re-encoded and compared with the bytes consumed. Acceptance sets are sampled, not enumerated.",
          "Token positions of computed fields come from the pinned schema; own checksum implementations.", "§3 C08"),
  "C09": ("runtime monitor with panic trap, child-process isolation (RLIMIT_AS 2 GiB, pre-logged in-flight input) and an allocation-count step proxy on hostile inputs",
-         "Exploration: every decoder × random, truncated, bit-flipped, site-directed (every length/count/body-length token set to maximal and wrap-around values in both byte orders, also in receive buffers with 4 MiB spare capacity) and unknown-discriminator inputs, plus a run-time re-registration scenario per table; inputs shorter than the shortest possible message of the type must be rejected; a panic, a dead child, a nil result on such a short input, or more reader steps than 256+8·len refutes. Holds on the inputs observed.",
+         "Exploration: every decoder × random, truncated, bit-flipped, site-directed (every length/count/body-length token set to maximal and wrap-around values in both byte orders, also in receive buffers with 4 MiB spare capacity) and unknown-discriminator inputs, plus a run-time re-registration scenario per table; inputs shorter than the shortest possible message of the type must be rejected; every exported prefixed reader primitive at every prefix width (u8..u64) gets hostile prefixes too; a panic, a dead child, a nil result on such a short input, or more reader steps than 256+8·len refutes. Holds on the inputs observed.",
          "Step proxy relies on every reader loop iteration allocating at least once (true for binary.Read under the pinned toolchain; otherwise the bound only gets weaker, never a false alarm).", "§3 C09"),
  "C10": ("runtime allocation meter (runtime.MemStats.TotalAlloc delta around each Decode in a single-goroutine child) on site-directed hostile inputs",
          "Exploration: every length/count site of the schema is driven with maximal prefixes followed by 0/1/16 bytes or the valid remainder, plus random and legitimate large inputs; a legitimately large image is decoded before the small hostile one for the same key; alloc <= 32 KiB + 40·len(input). All 66 sites must be reached or the run is inconclusive.",
@@ -37,7 +37,7 @@ CHECKS = {
          "Exploration with an exhaustively enumerated inner dimension: per generated value every cut position 0..len-1 (token boundaries ±1 and 256 random cuts for images > 4 KiB); the complete image is decoded first, texts recur across cases, and the check re-runs with the checksum registry emptied. Holds on the values generated.",
          "Values come from the canonical generator; soundness of 'must reject' rests on C07 (exact consumption).", "§3 C11"),
  "C12": ("runtime monitor against pinned key→type tables: decode, encode-fill and factory probes over registered keys and large swept/sampled unregistered key spaces",
-         "Exploration with exhaustively enumerated sub-spaces: all 226 registered keys (type identity + round trip + encode-fill bytes), the whole u16 key space, all u32 keys < 2^20 (thorough 2^24) plus neighbourhoods, and for string tables all strings of length <= 3 over a small alphabet (thorough: all byte strings <= 3). Unregistered keys are presented alone, as the last bytes of the input, followed by a valid frame, and into used receivers. The claim stays exploration because the u32 spaces are not swept completely.",
+         "Exploration with exhaustively enumerated sub-spaces: all 226 registered keys (type identity + round trip + encode-fill bytes), the whole u16 key space, all u32 keys < 2^20 (thorough 2^24) plus neighbourhoods, and for string tables all strings of length <= 3 over a small alphabet (thorough: all byte strings <= 3). Constructor results with only the key set must encode like zero values with only the key set; run-time re-registration through the exported Registry…Factory functions is honoured (child process). Unregistered keys are presented alone, as the last bytes of the input, followed by a valid frame, and into used receivers. The claim stays exploration because the u32 spaces are not swept completely.",
          "The key→type tables are frozen data of the pinned commit.", "§3 C12"),
  "C13": ("runtime reference-model monitor for fixed-width text primitives: exhaustive small scope plus random, against a 10-line pad/cut/strip model",
          "Exploration with an exhaustively enumerated small scope (N<=3 × 256 pad bytes × both sides × all texts over a 5-symbol alphabet) and random widths up to 65536; default wrappers and list variants per element; every fixed-text field of every message type (value, padding and emitted width); hash-colliding texts read one after the other.",
